@@ -15,6 +15,7 @@ impl Area for TimerArea {
         vec![
             s(&["timer new", "timer start shared", "timer discard 0 thread", "timer start shared", "timer record 1", "timer start shared", "timer drop 2 thread", "timer closure", "timer get"]),
             s(&["timer new", "timer pobs", "timer pobs", "timer start local", "timer discard 0", "timer start local", "timer drop 1", "timer get", "timer pflush", "timer get"]),
+            s(&["timer new", "timer pobs", "timer start local", "timer record 0", "timer get", "timer start shared", "timer pdrop 1", "timer start local", "timer pdrop 2", "timer get"]),
         ]
     }
     fn gen(&self, rng: &mut Rng, thorough: bool, stats: &mut Stats) -> Vec<String> {
@@ -24,7 +25,7 @@ impl Area for TimerArea {
         for _ in 0..n {
             let k = rng.below(100);
             if k < 30 || alive.is_empty() { let loc = rng.chance(45); lines.push(format!("timer start {}", if loc { "local" } else { "shared" })); alive.push((nt, loc)); nt += 1; stats.hit(if loc { "start:local" } else { "start:shared" }); }
-            else if k < 78 { let i = rng.below(alive.len()); let (t, loc) = alive.remove(i); let op = *rng.pick(&["record", "observe", "discard", "discard", "drop"]); stats.hit(&format!("end:{}", op));
+            else if k < 78 { let i = rng.below(alive.len()); let (t, loc) = alive.remove(i); let op = *rng.pick(&["record", "observe", "discard", "discard", "drop", "pdrop"]); stats.hit(&format!("end:{}", op));
                 lines.push(format!("timer {} {}{}", op, t, if !loc && rng.chance(40) { " thread" } else { "" })); }
             else if k < 84 { lines.push("timer closure".into()); } else if k < 92 { lines.push("timer pobs".into()); } else if k < 96 { lines.push("timer pflush".into()); } else { lines.push("timer get".into()); }
         }
@@ -35,34 +36,43 @@ impl Area for TimerArea {
         let mut outs = vec![]; let mut fails: Vec<Failure> = vec![];
         let mut h: Option<Histogram> = None; let mut parent: Option<LocalHistogram> = None; let mut timers: Vec<Option<T>> = vec![];
         // oracle: one observation per timer ended by record/observe/drop, none per discard; values >= 0
+        // values: every recorded duration lies between 0 and the wall-clock time since that timer was started (measured here, around the calls)
         let mut want: u64 = 0; let mut pend: u64 = 0; let mut ended = 0;
+        let mut started: Vec<std::time::Instant> = vec![]; let mut sum_lo: f64 = 0.0; let mut sum_hi: f64 = 0.0; let mut pend_sum: f64 = 0.0;
         for line in lines {
             let p: Vec<&str> = line.split(' ').collect();
             let on_thread = p.len() > 3 && p[3] == "thread";
             match p[1] {
-                "new" => { let hh = Histogram::with_opts(HistogramOpts::new("t", "h").buckets(vec![1e9])).unwrap(); parent = Some(hh.local()); h = Some(hh); timers.clear(); want = 0; pend = 0; outs.push("ok".into()); continue; }
-                "start" => { timers.push(Some(if p[2] == "local" { T::L(parent.as_ref().unwrap().start_timer()) } else { T::S(h.as_ref().unwrap().start_timer()) })); outs.push(format!("ok t={}", timers.len() - 1)); continue; }
-                "record" | "observe" | "discard" | "drop" => {
+                "new" => { let hh = Histogram::with_opts(HistogramOpts::new("t", "h").buckets(vec![1e9])).unwrap(); parent = Some(hh.local()); h = Some(hh); timers.clear(); want = 0; pend = 0; started.clear(); sum_lo = 0.0; sum_hi = 0.0; pend_sum = 0.0; outs.push("ok".into()); continue; }
+                "start" => { started.push(std::time::Instant::now()); timers.push(Some(if p[2] == "local" { T::L(parent.as_ref().unwrap().start_timer()) } else { T::S(h.as_ref().unwrap().start_timer()) })); outs.push(format!("ok t={}", timers.len() - 1)); continue; }
+                "record" | "observe" | "discard" | "drop" | "pdrop" => {
                     let i: usize = p[2].parse().unwrap();
                     if let Some(t) = timers[i].take() {
                         ended += 1;
                         let op = p[1].to_string();
                         let run = move |t: T| -> Option<f64> { match (t, op.as_str()) {
-                            (T::S(t), "record") => Some(t.stop_and_record()), (T::S(t), "observe") => { t.observe_duration(); None } (T::S(t), "discard") => Some(t.stop_and_discard()), (T::S(t), _) => { drop(t); None }
+                            (T::S(t), "record") => Some(t.stop_and_record()), (T::S(t), "observe") => { t.observe_duration(); None } (T::S(t), "discard") => Some(t.stop_and_discard()),
+                            (T::S(t), "pdrop") => { let _ = std::panic::catch_unwind(std::panic::AssertUnwindSafe(move || { let _held = t; panic!("unwinding with a timer in scope") })); None }
+                            (T::L(t), "pdrop") => { let _ = std::panic::catch_unwind(std::panic::AssertUnwindSafe(move || { let _held = t; panic!("unwinding with a timer in scope") })); None }
+                            (T::S(t), _) => { drop(t); None }
                             (T::L(t), "record") => Some(t.stop_and_record()), (T::L(t), "observe") => { t.observe_duration(); None } (T::L(t), "discard") => Some(t.stop_and_discard()), (T::L(t), _) => { drop(t); None } } };
                         let v = match t { T::S(ts) if on_thread => std::thread::spawn(move || run(T::S(ts))).join().unwrap(), t => run(t) };
                         if let Some(v) = v { if !(v >= 0.0) { fails.push(Failure { class: "negative-duration".into(), detail: format!("{} returned {}", line, v) }); } }
-                        if p[1] != "discard" { want += 1; }
+                        if p[1] != "discard" { want += 1; sum_hi += started[i].elapsed().as_secs_f64(); }
+                        if let Some(v) = v { if v > started[i].elapsed().as_secs_f64() { fails.push(Failure { class: "timer-value".into(), detail: format!("{} returned {} s, more than the wall-clock time since the timer was started", line, v) }); } }
                     }
                 }
-                "closure" => { let r = h.as_ref().unwrap().observe_closure_duration(|| 41 + 1); if r != 42 { fails.push(Failure { class: "closure-result".into(), detail: format!("closure result {}", r) }); } want += 1; }
-                "pobs" => { parent.as_ref().unwrap().observe(0.5); pend += 1; }
-                "pflush" => { parent.as_ref().unwrap().flush(); want += pend; pend = 0; }
+                "closure" => { let t0 = std::time::Instant::now(); let r = h.as_ref().unwrap().observe_closure_duration(|| 41 + 1); sum_hi += t0.elapsed().as_secs_f64(); if r != 42 { fails.push(Failure { class: "closure-result".into(), detail: format!("closure result {}", r) }); } want += 1; }
+                "pobs" => { parent.as_ref().unwrap().observe(64.0); pend += 1; pend_sum += 64.0; }
+                "pflush" => { parent.as_ref().unwrap().flush(); want += pend; pend = 0; sum_lo += pend_sum; sum_hi += pend_sum; pend_sum = 0.0; }
                 "get" => {}
                 _ => { outs.push("bad-op".into()); continue; }
             }
             let shared = h.as_ref().unwrap().get_sample_count(); let par = parent.as_ref().unwrap().get_sample_count();
             if shared != want || par != pend { fails.push(Failure { class: "timer-contribution".into(), detail: format!("after `{}`: histogram holds {} observations (parent local pending {}), the timers' contributions give {} (pending {})", line, shared, par, want, pend) }); }
+            let ssum = h.as_ref().unwrap().get_sample_sum();
+            if !(ssum >= sum_lo && ssum <= sum_hi + 1e-9) { fails.push(Failure { class: "timer-value".into(), detail: format!("after `{}`: sample sum {} is not (flushed plain observations {}) + (one duration in [0, wall-clock time since start] per recorded timer: at most {})", line, ssum, sum_lo, sum_hi) }); }
+            if parent.as_ref().unwrap().get_sample_sum() != pend_sum { fails.push(Failure { class: "timer-value".into(), detail: format!("after `{}`: the parent local histogram's pending sum is {}, its own plain observations give {}", line, parent.as_ref().unwrap().get_sample_sum(), pend_sum) }); }
             if h.as_ref().unwrap().get_sample_sum() < 0.0 { fails.push(Failure { class: "negative-duration".into(), detail: "negative sample sum".into() }); }
             outs.push(format!("shared={} parent={}", shared, par));
         }
